@@ -2,6 +2,7 @@ import Model.Uuid
 import Model.UuidDecode
 import Model.UuidGen
 import Model.UuidConc
+import Model.UuidErr
 import Driver.Util
 namespace Driver.C19
 open Util
@@ -79,6 +80,13 @@ def parseWord (w : String) : Option Uuid.Word :=
     | _ => none
   | _ => none
 
+/-- an error value on the wire: `ok` | `<E|M|U>:<hex of the text>` | `<E|M|U>:nonascii` -/
+def showErr : Option Uuid.Err → String
+  | none => "ok"
+  | some e =>
+    (match e.kind with | .plain => "E:" | .marshal => "M:" | .unmarshal => "U:") ++
+    (match e.text with | some t => toHex t | none => "nonascii")
+
 /-- the `genrun` / `genrunx` answer -/
 def genrunAns (c hw s ns n ev st : String) : String :=
       match natArg c, parseHex hw, intArg s, natArg ns, natArg n, natArg ev, natArg st with
@@ -124,6 +132,8 @@ def genrunAns (c hw s ns n ev st : String) : String :=
   randn <hex, any length>              → ok <uuid> v=4 var=2 must=ok | err <16 bytes, partly filled> must=panic   (RandomUUID / MustRandomUUID
                                          when rand.Reader can deliver only these bytes)
   mcqlx <unset|nilval|int|…>           → ok null | err                      (gocql.Marshal of the remaining value kinds)
+  etext <text> / ejson <data> / emcql <col> <kind> <content> / eucql <col> <kind> <data|null> / eucqlt <col> <data|null>
+                                       → ok | <E|M|U>:<hex of err.Error()> | <E|M|U>:nonascii   (Go error type: other / MarshalError / UnmarshalError)
   mcqlp <hex16|nil>                    → ok null|<16 bytes>                (gocql.Marshal of a *UUID)
   useq <prev16> <step>...              → ok:<dst>|err:<dst> per step, all on ONE destination
   rtdirty <prev16> <u16>               → u (every printer → every decoder, destination holding prev)
@@ -261,6 +271,24 @@ def step (_ : Unit) (ws : List String) : Unit × String :=
       | some d =>
         let r := Uuid.unmarshalNullableTime (col == "timeuuid") d
         (if r.1 then "ok " else "err ") ++ (match r.2 with | none => "nilptr" | some t => s!"{t.1}.{t.2}")
+      | none => "bad-op"
+  -- error values (Model/UuidErr.lean; C19_error_iff_failure)
+  | ["etext", t] => match parseHex t with
+      | some t => showErr (Uuid.textErr t)
+      | none => "bad-op"
+  | ["ejson", d] => match parseHex d with
+      | some d => showErr (Uuid.jsonErr d)
+      | none => "bad-op"
+  | ["emcql", col, kind, c] => match (if kind == "bytes" then (optBytes c).map Uuid.Dst.bytes else parseDst kind c) with
+      | some v => showErr (Uuid.marshalErr (col == "timeuuid") v)
+      | none => "bad-op"
+  | ["eucql", col, kind, d] =>
+      match parseDst kind (if kind == "bytes" then "nil" else if kind == "str" then "-" else "00000000000000000000000000000000"),
+            optBytes d with
+      | some k, some d => showErr (Uuid.unmarshalErr (col == "timeuuid") (d.getD []) k)
+      | _, _ => "bad-op"
+  | ["eucqlt", col, d] => match optBytes d with
+      | some d => showErr (Uuid.unmarshalTimeErr (col == "timeuuid") (d.getD []))
       | none => "bad-op"
   | ["mcqlp", c] => match optBytes c with                                         -- C19_cql_nullable_roundtrip
       | some u => match Uuid.marshalPtr u with
